@@ -24,7 +24,7 @@ func init() {
 			"It does not decide accept ⇔ spec-valid for all documents (that is the rules' own logic).",
 		Mutants: []Mutant{
 			{Name: "Walker no longer visits the directives of a schema definition (never validated)", File: "v2/pkg/astvisitor/visitor.go", Rule: "C04-R5", Key: "walker-siblings/walkSchemaDefinition",
-				Old: "\tif w.document.SchemaDefinitions[ref].HasDirectives {\n\t\tfor _, i := range w.document.SchemaDefinitions[ref].Directives.Refs {\n\t\t\tw.walkDirective(i)", New: "\tif false {\n\t\tfor _, i := range []int{} {\n\t\t\tw.walkDirective(i)"},
+				Old: "\tif w.document.SchemaDefinitions[ref].HasDirectives {\n\t\tfor _, i := range w.document.SchemaDefinitions[ref].Directives.Refs {\n\t\t\tw.walkDirective(i, skipFor)", New: "\tif false {\n\t\tfor _, i := range []int{} {\n\t\t\tw.walkDirective(i, skipFor)"},
 			{Name: "validation memo ignores the validator options (seeded change C04-13)", File: gqlValidateGo, Rule: "C04-R4", Key: "memo-only-without-options",
 				Old: "\tif useCache {\n\t\tr.validForSchema[schemaHash] = result\n\t}\n", New: "\tr.validForSchema[schemaHash] = result\n"},
 			{Name: "KnownArguments rule dropped from the default validator", File: opValidationGo, Rule: "C04-R1", Key: "KnownArguments",
